@@ -17,9 +17,10 @@ def encD (d : D) : String :=
   "{" ++ ";".intercalate ((d.map fun (k, v) => encChars k ++ "=" ++ encV v).toArray.qsort (· < ·)).toList ++ "}"
 
 def encState (s : MSt) : String :=
-  s!"{s.depth} {s.stack.length} {if s.inentry then 1 else 0} {s.entries.length} {enc s.base.baseuri} {encOpt s.base.lang}"
+  s!"{s.c.depth} {s.stack.length} {if s.c.inentry then 1 else 0} {s.c.entries.length} {enc s.c.base.baseuri} {encOpt s.c.base.lang}"
 
-def dump (s : MSt) : String :=
+def dump (s0 : MSt) : String :=
+  let s := s0.c
   "feed=" ++ encD s.feed ++ " entries=[" ++ "|".intercalate (s.entries.reverse.map fun e => encD e.d) ++ "] version=" ++ encChars s.version ++
   " ns={" ++ ";".intercalate ((s.nsInUse.map fun (k, v) => encChars k ++ "=" ++ encChars v).toArray.qsort (· < ·)).toList ++ "}"
 
@@ -51,7 +52,7 @@ def driverStep (d : DSt) (ws : List String) : DSt × String :=
       let feed : D := match lang with
         | some l => if l.isEmpty then [] else [(S "language", V.s (replaceAll ['_'] ['-'] l.toList))]
         | none => []
-      let s : MSt := { feed := feed, base := ⟨b, lang, [], []⟩ }
+      let s : MSt := { c := { feed := feed, base := ⟨b, lang, [], []⟩ } }
       ({ s := s, loose := l == "1", dead := none }, encState s)
     | _, _ => (d, "bad-op")
   | "start" :: tag :: r2 :: r1 :: attrs =>
